@@ -82,6 +82,15 @@ def resolve(ctx):
                         ctx.check(okm, a, "%s: negative n_jobs => max(cpu_count() + 1 + n_jobs, k>=1)" % q, "%s: negative branch computes %s" % (q, unparse(mv)))
                 ctx.ok(r, "%s: positive n_jobs is returned unchanged" % q)
                 continue
+            # the negative-branch formula returned directly instead of through a re-binding of n_jobs
+            if isinstance(v, ast.Call) and call_name(v) == "max" and len(v.args) == 2:
+                k = [x for x in v.args if isinstance(x, ast.Constant)]
+                e = [x for x in v.args if not isinstance(x, ast.Constant)]
+                okm = len(k) == 1 and isinstance(k[0].value, int) and k[0].value >= 1 and len(e) == 1 and sorted(_flat_add(e[0])) == sorted(["cpu_count()", "1", p])
+                neg = ("%s < 0" % p, True) in g.fact_set(g.nodes_of(r))
+                ctx.check(okm and neg, r, "%s: negative n_jobs => max(cpu_count() + 1 + n_jobs, k>=1), returned in the negative branch" % q,
+                          "%s: returns %s %s" % (q, unparse(v), "outside the `n_jobs < 0` branch" if okm else "(not max(cpu_count() + 1 + n_jobs, k>=1))"))
+                continue
             ctx.bad(r, "%s: unexpected return value %s (neither 1, n_jobs nor the base class result)" % (q, unparse(v)))
     # the two process backends: nesting guards
     for q in ("MultiprocessingBackend.effective_n_jobs", "LokyBackend.effective_n_jobs"):
